@@ -2,8 +2,6 @@ package conversion
 
 import (
 	"strings"
-
-	"github.com/flant/shell-operator/pkg/utils/string_helper"
 )
 
 type ChainStorage struct {
@@ -191,7 +189,6 @@ func (c Chain) RulesWithSimilarFromVersion(rule Rule) []Rule {
 // NextRules finds all base paths in BaseFromToIndex that starts from an input version.
 func (c Chain) NextRules(fromVer string) []Rule {
 	rules := []Rule{}
-	shortVer := string_helper.TrimGroup(fromVer)
 	for k := range c.BaseFromToIndex {
 		//
 		if k == fromVer {
@@ -204,8 +201,8 @@ func (c Chain) NextRules(fromVer string) []Rule {
 			continue
 		}
 
-		idxFrom := strings.Index(k, shortVer)
-		if idxFrom == -1 {
+		// The rule should start from the same version, with or without a group.
+		if !VersionsMatched(k, fromVer) {
 			continue
 		}
 		for toVer := range c.BaseFromToIndex[k] {
